@@ -139,13 +139,20 @@ theorem held_append_perm (jobs : List Job) (job : Job) :
 /-! ### the three scheduler events -/
 
 theorem initiate_cases (s : St) :
-    (initiate s = (s, false)) ∨
-    (initiate s = ({ s with cworker := (s.workers - s.toinitiate).toNat, toinitiate := s.toinitiate - 1 },
-      decide (s.toinitiate - 1 ≥ 0))) := by
+    (initiate s = (s, false) ∧ s.tsteps ≤ s.cstep) ∨
+    (∃ ti : Int, (ti = s.toinitiate ∨ (ti = 0 ∧ 0 < s.toinitiate)) ∧
+      initiate s = ({ s with cworker := ((s.workers : Int) - ti).toNat, toinitiate := ti - 1 },
+        decide (ti - 1 ≥ 0))) := by
   unfold initiate
   split
-  · exact Or.inl rfl
-  · exact Or.inr rfl
+  · rename_i hc
+    exact Or.inl ⟨rfl, by omega⟩
+  · right
+    simp only []
+    split
+    · rename_i hc
+      exact ⟨0, Or.inr ⟨rfl, hc.1⟩, rfl⟩
+    · exact ⟨s.toinitiate, Or.inl rfl, rfl⟩
 
 theorem loop_coreEq (s : St) : CoreEq s (loop s).1 ∧ (loop s).1.trajNum = s.trajNum ∧
     (loop s).1.toinitiate = s.toinitiate ∧ (loop s).1.workers = s.workers ∧ (loop s).1.occ = s.occ := by
@@ -157,7 +164,7 @@ theorem loop_coreEq (s : St) : CoreEq s (loop s).1 ∧ (loop s).1.trajNum = s.tr
 theorem start_preserves {y y' : Sys} (o : PickOutcome) (saved : Nat) (hi : Inv y)
     (h : sysStep y (.start o saved) = .ok y') : Inv y' := by
   unfold sysStep at h
-  rcases initiate_cases y.s with hin | hin
+  rcases initiate_cases y.s with ⟨hin, _⟩ | ⟨ti, hti, hin⟩
   · rw [hin] at h
     simp at h
   rw [hin] at h
@@ -165,7 +172,12 @@ theorem start_preserves {y y' : Sys} (o : PickOutcome) (saved : Nat) (hi : Inv y
   split at h
   · exact absurd h (by simp)
   rename_i hgo
-  have hgo : y.s.toinitiate - 1 ≥ 0 := by simpa using hgo
+  have hgo : ti - 1 ≥ 0 := by simpa using hgo
+  have hti : ti = y.s.toinitiate := by
+    rcases hti with h1 | h1
+    · exact h1
+    · omega
+  subst hti
   split at h
   · exact absurd h (by simp)
   rename_i s2 job ds hprep
@@ -224,7 +236,7 @@ theorem start_preserves {y y' : Sys} (o : PickOutcome) (saved : Nat) (hi : Inv y
 
 theorem initDone_preserves {y y' : Sys} (hi : Inv y) (h : sysStep y .initDone = .ok y') : Inv y' := by
   unfold sysStep at h
-  rcases initiate_cases y.s with hin | hin
+  rcases initiate_cases y.s with ⟨hin, _⟩ | ⟨ti, hti, hin⟩
   · rw [hin] at h
     simp only [Bool.false_eq_true, ↓reduceIte, Except.ok.injEq] at h
     subst h
@@ -234,7 +246,7 @@ theorem initDone_preserves {y y' : Sys} (hi : Inv y) (h : sysStep y .initDone = 
   split at h
   · exact absurd h (by simp)
   rename_i hgo
-  have hgo : ¬ (y.s.toinitiate - 1 ≥ 0) := by simpa using hgo
+  have hgo : ¬ (ti - 1 ≥ 0) := by simpa using hgo
   simp only [Except.ok.injEq] at h
   subst h
   have htole := hi.tole
@@ -242,9 +254,9 @@ theorem initDone_preserves {y y' : Sys} (hi : Inv y) (h : sysStep y .initDone = 
   · exact hi.core.congr ⟨rfl, rfl, rfl, rfl, rfl⟩
   · exact hi.jobs
   · exact hi.pins
-  · show y.s.toinitiate - 1 ≤ (y.s.workers : Int)
+  · show ti - 1 ≤ (y.s.workers : Int)
     omega
-  · show 0 ≤ y.s.toinitiate - 1 → _
+  · show 0 ≤ ti - 1 → _
     intro h0
     omega
   · exact hi.eng
